@@ -594,6 +594,10 @@ func buildScenario(r *hutil.Rng, i int, stream string, prop string) (atrun.Scena
 	body := []atrun.Step{{Op: "dump", Tables: []string{t.name}}}
 	nst := 1 + r.Intn(4)
 	for s := 0; s < nst; s++ {
+		if !qualified && s > 0 && r.Chance(1, 4) {
+			// the table-meta cache is replaced between two statements (expiry / refresh / another instance)
+			body = append(body, atrun.Step{Op: "meta_refresh"})
+		}
 		o := stmtOpt{where: whereOpt{depth: 1 + r.Intn(3), keyBias: true}}
 		special := s == nst-1 // the stream's special statement comes last
 		if stream == "malformed" && special {
@@ -684,8 +688,15 @@ func buildScenario(r *hutil.Rng, i int, stream string, prop string) (atrun.Scena
 		}
 		if qualified {
 			sm.Expect = "reject-db" // a schema-qualified table is outside what the executors describe: refused, or exact
-		} else if sm.Kind != "upsert" && !strings.Contains(stream, "finding") && r.Chance(1, 6) {
-			sql = strings.Replace(sql, " "+t.name, " `"+t.name+"`", 1) // back-quoted table name
+		} else if !strings.Contains(stream, "finding") {
+			spelled := t.name
+			if r.Chance(1, 3) {
+				spelled = caseVariant(r, t.name) // table names are case-insensitive: every statement may spell its own
+				sql = strings.Replace(sql, " "+t.name, " "+spelled, 1)
+			}
+			if sm.Kind != "upsert" && r.Chance(1, 6) {
+				sql = strings.Replace(sql, " "+spelled, " `"+spelled+"`", 1) // back-quoted table name
+			}
 		}
 		sm.DumpPre = fmt.Sprintf("0.%d", lastDump(body))
 		sm.Path = fmt.Sprintf("0.%d", len(body))
@@ -794,4 +805,21 @@ func genUpsert(r *hutil.Rng, t *table, o stmtOpt) (string, StmtMeta, string, []a
 	}
 	m.Args = b.args
 	return b.sb.String(), m, "SELECT ID FROM t_doc WHERE " + strings.Join(arms, " OR "), margs
+}
+
+// caseVariant: another spelling of a (case-insensitive) table name
+func caseVariant(r *hutil.Rng, name string) string {
+	switch r.Intn(3) {
+	case 0:
+		return strings.ToUpper(name)
+	case 1:
+		b := []byte(strings.ToLower(name))
+		for i := range b {
+			if i%2 == 0 && b[i] >= 'a' && b[i] <= 'z' {
+				b[i] -= 32
+			}
+		}
+		return string(b)
+	}
+	return strings.ToUpper(name[:1]) + name[1:]
 }
